@@ -16,7 +16,7 @@ RULE = ("Rule-based state machine: a pool of Parameters (with / without bounds a
         "ParameterDict item assignment / new key / overwrite with Parameter / remove, build a circuit from a "
         "generated program whose numeric slots (bs reflectivity, bs/ps loss, phase, loss element - also inside "
         "grouped, ungrouped and heralded sub-circuits, the same parameter possibly several times) are bound to pool "
-        "parameters, copy, copy(freeze_parameters=True), read U, list parameters. Model: a Python dict of "
+        "parameters, copy, copy(freeze_parameters=True), the in-place rewrites (unpack_groups, compress_mode_swaps, remove_non_adjacent_bs), read U, list parameters. Model: a Python dict of "
         "values/bounds; oracle after every step: get()/bounds equal the model, min <= value <= max, a rejected "
         "update changed nothing; circuit.U equals the U of the same program rebuilt from scratch with the current "
         "plain values (differential); get_all_params() is exactly the identity-set of parameters used; a frozen "
@@ -314,6 +314,22 @@ class C10Machine(RecordingMixin, RuleBasedStateMachine):
         if st_["heralded_adds"]:
             self.info_labels.add("heralded-sub-circuit")
 
+    def do_rewrite(self, ci, which):
+        """In-place rewrites must keep the circuit live (same Parameter objects)."""
+        if not self.circs:
+            return
+        c = self.circs[ci % len(self.circs)]
+        vals = self.current_values(c)
+        if not all(valid_for(k, v) for k, v in zip(c["kinds"], vals)):
+            return
+        fn = {"compress": c["real"].compress_mode_swaps, "nonadj": c["real"].remove_non_adjacent_bs,
+              "unpack": c["real"].unpack_groups}[which]
+        try:
+            fn()
+        except Exception as e:  # noqa: BLE001
+            raise unexpected(e, which) from e
+        self.info_labels.add("rewrite:" + which)
+
     def do_copy(self, ci, freeze):
         if not self.circs or len(self.circs) >= 6:
             return
@@ -382,6 +398,10 @@ class C10Machine(RecordingMixin, RuleBasedStateMachine):
     @rule(i=st.integers(0, 20), value=st.sampled_from([0.5, 0.0, 1.0, 0.25]))
     def r_revalidate(self, i, value):
         self.step("set", i=i, value=value)
+
+    @rule(ci=st.integers(0, 10), which=st.sampled_from(["compress", "nonadj", "unpack"]))
+    def r_rewrite(self, ci, which):
+        self.step("rewrite", ci=ci, which=which)
 
     @rule(ci=st.integers(0, 10), freeze=st.booleans())
     def r_copy(self, ci, freeze):
